@@ -34,6 +34,10 @@ def run(tier):
     for a in (["epidemic", "binary_spray"] if quick else ALGOS):
         plans.append(dict(name="same-ms", fam=fam, algo=a, budget=3, steps=5 if quick else 6, sim=(30, 12) if quick else (600, 16), cap=250 if quick else 3000, mc=not quick or a == "epidemic"))
         plans.append(dict(name="epoch", fam=famz, algo=a, budget=3, steps=5 if quick else 6, cap=200 if quick else 2000, mc=False))
+    # bundles whose (common) creation time lies ten minutes in the past: the counter must not be forgotten between them
+    famo = dict(peers=P, enabled=["Submit", "PeerUp", "RetryTick"],
+                cat={"o1": attr("app", "far", tsg=3, oldts=True), "o2": attr("app", "p2", tsg=3, oldts=True), "o3": attr("app", "far", tsg=3, oldts=True)})
+    plans.append(dict(name="old-time", fam=famo, algo="epidemic", budget=3, steps=4 if quick else 5, cap=80 if quick else 1000, mc=False))
     total, st = run_families(chk, "C14", plans, tier)
     own_violations(chk, "C14")
     # several goroutines submit bundles of one source and instant at the same moment
